@@ -22,7 +22,8 @@ ASSUMPTIONS = ['pandas: Index.intersection/union of sorted DatetimeIndexes are t
                '(outside the quantifier, which names None / ffill / bfill) go through the C12 model for the tail of the list and are generated lightly',
                'nested tuples (_list does not descend into them: members reindexed, not counted for the joint index) are outside the statement (nested lists/dicts) and generated only lightly, against the model',
                'presync with join naming a parameter: the named argument is a timeseries, a pd.Index, an array or dict(index=...); a list / plain dict there (list of indexes, no reindex accepts it) is not generated',
-               'the ORDER of the columns after column alignment is not compared (a set in the statement); 2-d arrays and arrays mixed with pandas objects (ValueError) are sampled only lightly',
+               'the ORDER of the columns after column alignment is not compared (a set in the statement); arrays mixed with pandas objects (ValueError) are sampled only lightly; 2-d arrays are NOT generated (the wire carries 1-d arrays only; probed by hand: '
+               'df_sync([a(3x2), b(1x2), c(2,)], "oj") front-pads each along axis 0)',
                'float values are exact multiples of 1/4']
 S = 4
 nan = float('nan')
@@ -747,23 +748,104 @@ def laws(rng, tier, ctx):
             bad = check_members(leaves(pos) + leaves(kw), leaves(res[0]) + leaves(res[1]), want, sx[5], None)
         if bad:
             yield Finding('violation', case, bad)
-    # bare arrays: aligned at the end
+    # presync with a column policy (the DEFAULT is columns='ij'): the decorated function is called once per column of the common
+    # column set, each time with that column of every multi-column frame (a frame lacking it: the default, NaN), Series as they
+    # are, all on the common index - "multi-column frames onto the matching common column set" for ANY decorated function
+    # (the function here only records what it receives)
+    for _ in range(n // 3):
+        days0 = rand_days(rng, 'overlap', [])
+        k = rng.choice([2, 2, 3])
+        heads = [rng.choice([['a', 'b'], ['b', 'c'], ['a', 'c'], ['a', 'b', 'c'], ['b', 'a']]) for _ in range(k)]
+        nan_rate = rng.choice([0.0, 0.2, 0.4])
+        ops = [rand_frame(rng, days0 if j == 0 else rand_days(rng, rng.choice(['overlap', 'nested', 'disjoint']), days0), nan_rate, heads[j]) for j in range(k)]
+        if rng.random() < 0.4:
+            ops.insert(rng.randrange(k + 1), rand_series(rng, rand_days(rng, 'overlap', days0), nan_rate))
+        how, ch, m = rng.choice(['ij', 'oj', 'lj', 'rj']), rng.choice(['ij', 'oj', 'default']), rng.choice(METHODS)
+        case = dict(tag='law-presync-columns/%s' % ch, lines=['(align sync %s %s %s %s)' % (enc_tree(ops), how, m, 'ij' if ch == 'default' else ch)])
+        calls = []
+
+        def rec(*args):
+            calls.append(args)
+            return [a for a in args if isinstance(a, pd.Series)][0]
+        try:
+            kw = {} if ch == 'default' else dict(columns=ch)
+            res = pyg_base.presync(rec)(*ops, join=how, method=dec_method(m), **kw)
+        except Exception as e:
+            yield Finding('violation', case, 'the presync-decorated call raised %s: %s' % (type(e).__name__, str(e)[:120]))
+            continue
+        count += 1
+        want = expected_index(ops, how)
+        hs = [set(x.columns) for x in ops if isinstance(x, pd.DataFrame)]
+        cols = set.union(*hs) if ch == 'oj' else set.intersection(*hs)
+        if len(calls) != len(cols):
+            yield Finding('violation', case, 'the function was called %d times, the common column set is %s' % (len(calls), sorted(cols)))
+            continue
+
+        def matches(args, c):
+            if len(args) != len(ops):
+                return False
+            for x, a in zip(ops, args):
+                if isinstance(x, pd.DataFrame) and c not in x.columns:
+                    if isinstance(a, (pd.Series, pd.DataFrame)) or not _isnan(float(a)):
+                        return False
+                    continue
+                src = x[c] if isinstance(x, pd.DataFrame) else x
+                if not isinstance(a, pd.Series) or list(a.index) != want or not same_vals(list(map(float, a.values)), expected_series(src, want, dec_method(m))):
+                    return False
+            return True
+        left, bad = set(cols), None
+        for args in calls:
+            hit = [c for c in sorted(left) if matches(args, c)]
+            if not hit:
+                bad = 'a call received arguments that are no column of the common column set %s on the common index %s: %s' % (
+                    sorted(cols), [t.day for t in want], [list(a.values) if isinstance(a, pd.Series) else a for a in args])
+                break
+            left.discard(hit[0])
+        if bad:
+            yield Finding('violation', case, bad)
+            continue
+        if cols and not (isinstance(res, pd.DataFrame) and set(res.columns) == cols and list(res.index) == want):
+            yield Finding('violation', case, 'the result is not a frame with the common columns %s on the common index' % sorted(cols))
+    # bare arrays: aligned at the end - flat lists, nested lists / dicts beside scalars and strings (the joint length is taken over
+    # EVERY array at any depth: theorem sync_arrays), with a fill method (aligned, then filled by position), and as the
+    # arguments of a presync-decorated function
     for _ in range(n // 2):
         arrs = [np.array([rng.choice(VALS) if rng.random() > 0.2 else nan for _ in range(rng.choice([0, 1, 2, 3, 4, 6]))], dtype=float) for _ in range(rng.choice([2, 3]))]
         how = rng.choice(HOWS)
-        case = dict(tag='law-arrays', lines=['(align sync %s %s N ij)' % (enc_tree(arrs), how)])
+        m = rng.choice(['N', 'N', 'ffill', 'bfill'])
+        shape = rng.choice(['flat', 'flat', 'nested', 'presync'])
+        if shape == 'nested':
+            tree = [arrs[0], rng.choice(SCALARS), {'k': arrs[1], 'j': rng.choice(SCALARS)}] + [[a, 'x'] for a in arrs[2:]]
+        else:
+            tree = list(arrs)
+        case = dict(tag='law-arrays' + ('' if shape == 'flat' else '-' + shape) + ('' if m == 'N' else '+fill'), lines=['(align sync %s %s %s ij)' % (enc_tree(tree), how, m)])
         try:
-            res = pyg_base.df_sync(arrs, how)
+            if shape == 'presync':
+                res = pyg_base.presync(_fv)(*tree, join=how, method=dec_method(m), columns=False)
+                res = list(res[0]) if isinstance(res, tuple) and len(res) == 2 and res[1] == {} else None
+            else:
+                res = pyg_base.df_sync(tree, how, dec_method(m))
         except Exception as e:
-            yield Finding('violation', case, 'df_sync raised %s: %s' % (type(e).__name__, str(e)[:120]))
+            yield Finding('violation', case, 'df_sync / presync raised %s: %s' % (type(e).__name__, str(e)[:120]))
             continue
         count += 1
+        if res is None or not passthrough_ok(tree, res):
+            yield Finding('violation', case, 'container structure changed or a non-array member was not passed through unchanged')
+            continue
         lens = [len(a) for a in arrs]
         want = min(lens) if how == 'ij' else max(lens) if how == 'oj' else lens[0] if how == 'lj' else lens[-1]
-        for a, b in zip(arrs, res):
+        outs = [x for x in leaves(res) if isinstance(x, np.ndarray)]
+        for a, b in zip(arrs, outs):
             exp = list(a[len(a) - want:]) if want <= len(a) else [nan] * (want - len(a)) + list(a)
+            if m != 'N':
+                seq, last = (exp if m == 'ffill' else exp[::-1]), nan
+                filled = []
+                for v in seq:
+                    last = v if v == v else last
+                    filled.append(last)
+                exp = filled if m == 'ffill' else filled[::-1]
             if not same_vals(list(map(float, b)), list(map(float, exp))):
-                yield Finding('violation', case, 'arrays are not aligned at the end: got %s, expected %s' % (list(b), exp))
+                yield Finding('violation', case, 'arrays are not aligned at the end%s: got %s, expected %s' % ('' if m == 'N' else ' and then filled', list(b), exp))
                 break
     yield count
 
